@@ -531,3 +531,77 @@ Proof.
     + unfold k' in Hlen. destruct ((length alts + 1) / 2 <? k) eqn:Ek; [apply Nat.ltb_lt in Ek|]; lia.
     + unfold k' in Hlen. destruct ((length alts + 1) / 2 <? k) eqn:Ek; [|apply Nat.ltb_ge in Ek]; lia.
 Qed.
+
+(* the None half of the contract follows from soundness: no answer when no valid partition has at most k axes *)
+Corollary bf_none_when_infeasible set_order alts votes k :
+  wf_profile alts votes -> votes <> [] -> (forall L, Permutation L (set_order L)) ->
+  k < min_partition alts votes -> bf_algo set_order alts votes k = None.
+Proof.
+  intros Hwf Hvne Hord Hk. destruct (bf_algo set_order alts votes k) as [res|] eqn:Er; [exfalso|reflexivity].
+  destruct (bf_sound set_order alts votes k res Hwf Hvne Hord Er) as (Hc & Hlen & _).
+  pose proof (check_valid_bound alts votes res Hwf Hc). lia.
+Qed.
+
+(* an answer is never better than the optimum, and is accepted by brute_force_ok as soon as it has min_partition axes *)
+Corollary bf_some_bounds set_order alts votes k res :
+  wf_profile alts votes -> votes <> [] -> (forall L, Permutation L (set_order L)) ->
+  bf_algo set_order alts votes k = Some res ->
+  min_partition alts votes <= length res <= k /\
+  (length res = min_partition alts votes -> brute_force_ok alts votes k (Some res) = true).
+Proof.
+  intros Hwf Hvne Hord Er. destruct (bf_sound set_order alts votes k res Hwf Hvne Hord Er) as (Hc & Hlen & _).
+  pose proof (check_valid_bound alts votes res Hwf Hc) as Hmin. split; [lia|]. intros El.
+  unfold brute_force_ok, brute_force_ok_with. rewrite <- El.
+  assert (Hle : (length res <=? k) = true) by now apply Nat.leb_le.
+  rewrite Hle, Hc, Nat.eqb_refl. reflexivity.
+Qed.
+
+(* ---------------------------------------------------------------------------------------------- *)
+(* 8. completeness: kernel-checked on small domains only (see Properties/C18.v for what is missing) *)
+
+Fixpoint lists_of_len {T} (univ : list T) (n : nat) : list (list T) :=
+  match n with 0 => [[]] | S n' => flat_map (fun l => map (fun x => x :: l) univ) (lists_of_len univ n') end.
+
+(* every profile of exactly n votes (repetitions and every order of the votes included) over the alternatives
+   1..m, every k in 1..m+1: the mirror's answer satisfies the second sentence of the property *)
+Definition small_ok (m n : nat) : bool :=
+  let alts := map N.of_nat (seq 1 m) in
+  forallb (fun profile =>
+             let mn := min_partition alts profile in
+             forallb (fun k => brute_force_ok_with mn alts profile k (bf_algo (fun L => L) alts profile k)) (seq 1 (S m)))
+          (lists_of_len (Lib.Perms.perms alts) n).
+
+Lemma lists_of_len_spec {T} (univ : list T) n l :
+  In l (lists_of_len univ n) <-> length l = n /\ Forall (fun x => In x univ) l.
+Proof.
+  revert l; induction n as [|n IH]; intros l; simpl.
+  - split; [intros [<-|[]]; split; [reflexivity|constructor]|]. intros [H _]. destruct l; [now left|discriminate].
+  - rewrite in_flat_map. split.
+    + intros (l' & Hl' & H). apply in_map_iff in H. destruct H as (x & <- & Hx). apply IH in Hl'. destruct Hl' as [<- HF].
+      split; [reflexivity|now constructor].
+    + intros [Hlen HF]. destruct l as [|x l']; [discriminate|]. inversion HF; subst. exists l'. split.
+      * apply IH. split; [simpl in Hlen; lia|assumption].
+      * apply in_map_iff. eauto.
+Qed.
+
+(* what small_ok m n = true says *)
+Lemma small_ok_spec m n : small_ok m n = true ->
+  let alts := map N.of_nat (seq 1 m) in
+  forall profile, length profile = n -> Forall (fun v => Permutation alts v) profile ->
+  forall k, 1 <= k <= S m -> brute_force_ok alts profile k (bf_algo (fun L => L) alts profile k) = true.
+Proof.
+  intros H alts profile Hlen Hperm k Hk. unfold small_ok in H. fold alts in H. rewrite forallb_forall in H.
+  assert (Hin : In profile (lists_of_len (Lib.Perms.perms alts) n)).
+  { apply lists_of_len_spec. split; [assumption|]. eapply Forall_impl; [|exact Hperm]. intros v Hv. now apply Lib.Perms.perms_iff. }
+  specialize (H profile Hin). cbv zeta in H. rewrite forallb_forall in H. unfold brute_force_ok. apply H.
+  apply in_seq. lia.
+Qed.
+
+(* vm_cast_no_check: the computation is run once, by the kernel, at Qed *)
+Lemma small_ok_4 : small_ok 4 1 = true /\ small_ok 4 2 = true /\ small_ok 4 3 = true.
+Proof. split; [|split]; vm_cast_no_check (eq_refl true). Qed.
+Lemma small_ok_3 : small_ok 1 3 = true /\ small_ok 2 3 = true /\ small_ok 3 1 = true /\ small_ok 3 2 = true /\
+                   small_ok 3 3 = true /\ small_ok 3 4 = true.
+Proof. repeat split; vm_cast_no_check (eq_refl true). Qed.
+Lemma small_ok_5 : small_ok 5 1 = true.
+Proof. vm_cast_no_check (eq_refl true). Qed.
